@@ -129,6 +129,38 @@ def judge(traces, props, workers=8, heap_mb=2048, timeout=1800, module='TracePro
     return verd, res
 
 
+_CONF = re.compile(r'^"<<\\"CONF\\", (\d+), \\"(\w+)\\", (\d+), \\"([^"\\]*)\\", \{(.*?)\}, \{(.*?)\}>>"\s*$', re.M)
+
+
+def conform(traces, devs, workers=8, heap_mb=2048, timeout=1800):
+    """
+    Lock-step conformance of recorded traces against the rule specifications (spec/TraceCount.tla).
+    Returns (id -> dict(verdict, at, field, devs, warn), tlcres).
+    """
+    if not traces:
+        return {}, dict(states=0, distinct=0, wall=0.0, out='')
+    tmp = tempfile.mkdtemp(prefix='vtr-')
+    try:
+        path = os.path.join(tmp, 'traces.ndjson')
+        with open(path, 'w') as f:
+            for t in traces:
+                f.write(json.dumps(t, separators=(',', ':')) + '\n')
+        nw = max(1, min(workers, len(traces)))
+        mc = '---- MODULE MCT ----\nEXTENDS TraceCount\nMC_DEVS == {%s}\n====\n' % ', '.join('"%s"' % d for d in devs)
+        cfg = 'INIT Init\nNEXT Next\nCONSTANTS\n  NW = %d\n  DEVS <- MC_DEVS\n' % nw
+        res = tlc('MCT', cfg, env={'TRACE_FILE': path}, workers=nw, heap_mb=heap_mb, timeout=timeout, mc_text=mc)
+    finally:
+        shutil.rmtree(tmp, ignore_errors=True)
+    out = {}
+    for m in _CONF.finditer(res['out']):
+        names = lambda x: [y.replace('\\"', '').replace('"', '').strip() for y in x.split(',') if y.strip()]
+        out[int(m.group(1))] = dict(verdict=m.group(2), at=int(m.group(3)), field=m.group(4), devs=names(m.group(5)), warn=names(m.group(6)))
+    ids = set(t['id'] for t in traces)
+    if set(out) != ids:
+        raise Machinery('TLC conformance judged %d of %d traces:\n%s' % (len(out), len(ids), res['out'][-3000:]))
+    return out, res
+
+
 # ----------------------------------------------------------------------------------------
 def load_known():
     p = os.path.join(VERIF, 'known_findings.json')
